@@ -47,7 +47,10 @@ func resultClass(h protocol.Handler) (int, string) {
 
 // pts: per party the messages it receives in an honest run; withPanic: processing one of the victim's incoming messages
 // (seeded choice among pts) panics inside the round (c17_panic.go)
-func (c *ctx) c17History(sp SessionSpec, seed int64, sh shapeInfo, pts map[party.ID][]c17PanicPoint, withPanic bool) {
+// conf != nil: the history also contains conflicting duplicates (conflict.go): a second, different but individually valid message of
+// the same sender / round / kind, delivered after a genuine message the victim has been given (round to come, open, closed, or
+// after the end); it must change nothing, and a victim that completes returns the result of the undisturbed run with that seed.
+func (c *ctx) c17History(sp SessionSpec, seed int64, sh shapeInfo, pts map[party.ID][]c17PanicPoint, withPanic bool, conf *conflictSet) {
 	det := installDetReader(seed, 0)
 	defer restoreRandReader()
 	rng := rand.New(rand.NewSource(seed))
@@ -66,6 +69,11 @@ func (c *ctx) c17History(sp SessionSpec, seed int64, sh shapeInfo, pts map[party
 	if plan != nil {
 		hist = append(hist, "processing "+plan.Pt.String()+" panics")
 	}
+	if conf != nil {
+		hist = append(hist, "with conflicting duplicates")
+	}
+	var given []*protocol.Message // genuine messages the victim has been given so far
+	nConf := 0
 	// what the model is told about a message: the one the round code panics on carries the model's panic flag
 	// (1 = while verifying / storing it, 2 = in Finalize of its round); it is a genuine message otherwise (valid)
 	mark := func(e *Env) *Env {
@@ -146,13 +154,35 @@ func (c *ctx) c17History(sp SessionSpec, seed int64, sh shapeInfo, pts map[party
 		if plan != nil && plan.Fired() == 0 && (choice == 5 || choice == 6) && rng.Intn(3) != 0 {
 			choice = 0 // histories with a panicking message: fewer early Stops / abort notices, so that the message is reached more often
 		}
+		if conf != nil && (choice == 5 || choice == 6) && rng.Intn(3) != 0 {
+			choice = 9 // histories with conflicting duplicates: fewer early Stops / abort notices, more duplicates
+		}
 		switch {
+		case conf != nil && (choice == 7 || choice == 9) && len(given) > 0:
+			// a conflicting duplicate of a genuine message the victim already has
+			v1 := given[rng.Intn(len(given))]
+			ms, tags := conf.conflictsFor(v1, victim)
+			if len(ms) == 0 {
+				hist = append(hist, "Result")
+				check()
+				break
+			}
+			k := rng.Intn(len(ms))
+			hist = append(hist, fmt.Sprintf("conflicting duplicate (%s) of %s/r%d", tags[k][1:], v1.From, v1.RoundNumber))
+			nConf++
+			if b := conflictQuiet(s, victim, ms[k], tags[k]); b != "" {
+				bad("conflict-not-ignored: " + b)
+			}
+			check()
 		case choice <= 4 && len(s.Flight) > 0:
 			i := rng.Intn(len(s.Flight))
 			e := s.take(i)
 			hist = append(hist, "deliver "+envName(e))
 			if e.To == victim {
 				deliverV(e)
+				if e.Msg.RoundNumber > 0 {
+					given = append(given, e.Msg)
+				}
 				check()
 			} else {
 				s.Deliver(e)
@@ -202,6 +232,16 @@ func (c *ctx) c17History(sp SessionSpec, seed int64, sh shapeInfo, pts map[party
 		}
 	}
 	class := sp.Name
+	if conf != nil {
+		class += "/conflicting-duplicates"
+		if nConf == 0 {
+			class += "/none-reached"
+		}
+		// a victim that completes returns the result of the undisturbed run
+		if cl, fp := resultClass(v.H); cl == 1 && conf.RefFP[victim] != "" && fp != conf.RefFP[victim] {
+			bad("conflict-result-differs: the session completed with another result than the undisturbed run with the same party randomness")
+		}
+	}
 	if plan != nil {
 		class += map[bool]string{true: "/panic-recovered", false: "/panic-not-reached"}[plan.Fired() > 0]
 		class += map[bool]string{true: "/in-finalize", false: "/in-verify"}[plan.Pt.Fin]
@@ -227,6 +267,7 @@ func (c *ctx) c17History(sp SessionSpec, seed int64, sh shapeInfo, pts map[party
 func runC17(c *ctx) {
 	c.res.Rule = "random API histories (deliver / Stop / abort notice / foreign / duplicate / Result) on one handler at random points of xor and FROST keygen sessions; " +
 		"plus a third as many histories in which processing one incoming message panics inside the round (proxy round.Session): the session must end cleanly with the panic error; " +
+		"plus a third as many histories with conflicting duplicates (a second, different but individually valid message of the same sender / round / kind after the genuine one: nothing changes, a completing victim returns the undisturbed result); " +
 		"oracles: no panic, no hang, closed iff ended, Result stable after the end, Stop ends a running session; each history replayed in the Coq model " +
 		"(the message the round code panics on carries the model's panic flag -- in verify/store, or in Finalize of its round -- and the full observation is compared: nobody named, error kind, forwarded messages, notice, closes, queues, digests); non-trivial = non-empty history; " +
 		"concurrent sessions with a panicking message under Result / CanAccept / Stop / Accept from other goroutines (no escaping panic, Result fixed after the end, closed)"
@@ -252,16 +293,25 @@ func runC17(c *ctx) {
 		pts := c17PanicPoints(ref)
 		if replaying {
 			if rp.Spec == sp.Name {
-				c.c17History(sp, rp.Seed, sh, pts, len(rp.History) > 0 && strings.HasPrefix(rp.History[0], "processing "))
+				var conf *conflictSet
+				if len(rp.History) > 0 && rp.History[0] == "with conflicting duplicates" {
+					conf = conflictHarvest(sp, rp.Seed)
+				}
+				c.c17History(sp, rp.Seed, sh, pts, len(rp.History) > 0 && strings.HasPrefix(rp.History[0], "processing "), conf)
 			}
 			continue
 		}
 		for k := 0; k < n; k++ {
-			c.c17History(sp, c.res.Seed*100000+int64(k), sh, pts, false)
+			c.c17History(sp, c.res.Seed*100000+int64(k), sh, pts, false, nil)
 		}
 		// further histories in which processing one incoming message panics inside the round
 		for k := 0; k < n/3; k++ {
-			c.c17History(sp, c.res.Seed*100000+50000+int64(k), sh, pts, true)
+			c.c17History(sp, c.res.Seed*100000+50000+int64(k), sh, pts, true, nil)
+		}
+		// further histories with conflicting duplicates (a second, different message of the same sender for a round)
+		for k := 0; k < n/3; k++ {
+			seed := c.res.Seed*100000 + 70000 + int64(k)
+			c.c17History(sp, seed, sh, pts, false, conflictHarvest(sp, seed))
 		}
 	}
 	if replaying {
